@@ -126,8 +126,10 @@ Fixpoint xattrs (l : list attr) (k : N) : result outs :=
       let '(os, ans, cs) := r in Ok (os, ans, c' :: cs)
   end.
 
-(* ---- hdl21.proto.ProtoExporter.export_module, names and identities only (repaired: the name is
-        reserved when it is chosen, so a module below cannot take it) ---- *)
+(* ---- hdl21.proto.ProtoExporter.export_module, names and identities only.  Repaired code (c391423): the name is
+        checked when it is chosen and again before it is registered, after the instantiated modules were exported.
+        The model reserves the name when it is chosen; both reject exactly the hierarchies in which a module and a
+        (transitive) child carry one qualified name, and the package of an accepted hierarchy is the same. ---- *)
 Record pst := { reserved : list string; done : list (N * string) }.
 Fixpoint xmod (m : hmod) (st : pst) : result pst :=
   match m with
